@@ -38,8 +38,10 @@ def run_case(tid, recs):
     for pos, r in enumerate(recs, start=1):
         # each record's votes in a contest carry a candidate only that record has, so a merge that mixes two
         # records' selections inside one contest is visible
-        cvrs.append(CVR(id=r["id"], votes={c: {"src": pos, f"only{pos}": 1} for c in r["cons"]}, phantom=r["phantom"],
-                        pool=r["pool"], tally_pool=label.get(r["tpool"], r["tpool"])))
+        kw = dict(id=r["id"], phantom=r["phantom"], pool=r["pool"], tally_pool=label.get(r["tpool"], r["tpool"]))
+        if r["cons"]:
+            kw["votes"] = {c: {"src": pos, f"only{pos}": 1} for c in r["cons"]}
+        cvrs.append(CVR(**kw))          # a record without contests is built the way callers do: no votes argument at all
     try:
         with warnings.catch_warnings():
             warnings.simplefilter("ignore")
